@@ -80,6 +80,9 @@ PROPS = {
     "C18": dict(pkg="c18", level="exploration",
                 quick=[R(checks=4000)],
                 thorough=[R(checks=20000, shards=16, timeout=1800)]),
+    "C19": dict(pkg="c19", level="exploration",
+                quick=[R(checks=700, env={"VERIF_JOURNAL": "1"}, timeout=900)],
+                thorough=[R(checks=2500, shards=16, env={"VERIF_JOURNAL": "1"}, timeout=2400)]),
     "C20": dict(pkg="c20", level="exploration",
                 quick=[R(checks=12000, timeout=900)],
                 thorough=[R(checks=40000, shards=16, timeout=2400), F("FuzzPath", 120), F("FuzzJSONIntent", 150), F("FuzzXML", 120)]),
@@ -214,7 +217,8 @@ def run_check(pid, tier):
                     if m and sum(int(x) for x in m) < run["checks"] and "TestProp" in run["test"]:
                         notes.append("run %d shard %d truncated: %s of %d cases" % (runix, shard, m, run["checks"]))
                     continue
-                if "VIOLATION-CANDIDATE" in out:
+                crash = crash_violation(pid, out, replaydir, shard, run, statsdir)
+                if "VIOLATION-CANDIDATE" in out or crash:
                     status = max(status, 1) if status != 2 else status
                     if status == 0:
                         status = 1
@@ -229,6 +233,36 @@ def run_check(pid, tier):
         return finish(pid, tier, base_seed, cfg, statsdir, t0, status, notes)
     finally:
         shutil.rmtree(work, ignore_errors=True)
+
+
+def crash_violation(pid, out, replaydir, shard, run, statsdir):
+    """A panic in a goroutine spawned by the code under test kills the worker. With VERIF_JOURNAL the
+    harness journals the case in flight; that journal becomes the replay file of the violation."""
+    if not run["env"].get("VERIF_JOURNAL"):
+        return False
+    if "panic: test timed out" in out or not re.search(r"^(panic: |fatal error: )", out, re.M):
+        return False
+    j = os.path.join(replaydir, "%s-inflight-%d.json" % (pid, shard))
+    if not os.path.exists(j):
+        return False
+    m = re.search(r"^(?:panic: |fatal error: )(.*)$", out, re.M)
+    what = m.group(1).strip()[:120] if m else "crash"
+    frame = re.search(r"github.com/sdcio/data-server/pkg/([A-Za-z0-9_/.()*]+)", out[m.start():] if m else out)
+    sig = "%s:process-crash:%s" % (pid, (frame.group(1) if frame else "unknown").replace("(", "").replace(")", "").replace("*", ""))
+    doc = json.load(open(j))
+    doc["sig"] = sig
+    doc["detail"] = "the worker process died while this case was running: %s\n%s" % (what, out[m.start():m.start() + 2500] if m else "")
+    dst = os.path.join(replaydir, "%s-%s.json" % (pid, re.sub(r"[^A-Za-z0-9_.-]", "_", sig)))
+    json.dump(doc, open(dst, "w"))
+    os.remove(j)
+    for kf in json.load(open(os.path.join(ROOT, "known_findings.json")))["findings"]:
+        if kf.get("status") == "open" and kf.get("property") == pid and re.fullmatch(kf["sig"], sig):
+            print("KNOWN-FINDING: property=%s %s" % (pid, kf["what"]))
+            return False
+    # hand the violation to finish() through a stats file
+    json.dump({"property": pid, "cases": 0, "violations": [{"sig": sig, "replay": dst, "detail": doc["detail"]}]},
+              open(os.path.join(statsdir, "%s-crash-%d.json" % (pid, shard)), "w"))
+    return True
 
 
 def finish(pid, tier, seed, cfg, statsdir, t0, status, notes):
@@ -312,7 +346,7 @@ def run_replay(pid, path):
         p = subprocess.run([b, "-test.run", "^TestReplay$", "-test.timeout", "300s"], cwd=os.path.join(HARNESS, cfg["pkg"]), env=env,
                            stdout=subprocess.PIPE, stderr=subprocess.STDOUT, text=True)
         print(p.stdout)
-        if "REPLAY-FAIL" in p.stdout:
+        if "REPLAY-FAIL" in p.stdout or ("panic: test timed out" not in p.stdout and re.search(r"^(panic: |fatal error: )", p.stdout, re.M)):
             print("VIOLATION property=%s replay=%s" % (pid, path))
             return 1
         return 0 if p.returncode == 0 else 2
